@@ -282,6 +282,48 @@ pub fn exec_snap_n<N: Analysis<Main> + Default + 'static>(ops: Vec<Op>, seed: u6
         if strip_uf(&snap) != strip_uf(&snap2) {
             tags.push("viol:queries-changed-the-state".to_string());
         }
+        // `add` on a miss (last, it changes the state): nodes that are not represented are inserted one by one; the model of
+        // the miss path (`Snap.addNew`: new class, its stored node, its self-symmetries, the union-find) is applied to the
+        // first dump and must give the dump taken after the first insertion.  One insertion per case is judged by the model
+        // (the case line carries one "before" state); the harness predicates below hold for every one.
+        let mut first = true;
+        for n in probes.iter().take(10) {
+            if !matches!(guarded(|| eg.lookup(n)), Ok(None)) {
+                continue;
+            }
+            let before_classes = eg.verif_measure().0;
+            let before = eg.verif_snapshot(|_| "-".to_string()).trim_end().replace('\n', "~");
+            if first && strip_uf(&before) != strip_uf(&snap) {
+                break;
+            }
+            let res = match guarded(|| eg.add(n.clone())) {
+                Ok(r) => r,
+                Err(e) => {
+                    tags.push("viol:add-panics".to_string());
+                    tags.push(format!("panic:{e}"));
+                    break;
+                }
+            };
+            if eg.verif_measure().0 != before_classes + 1 || res.id.0 != before_classes {
+                tags.push("viol:add-of-unknown-node-did-not-allocate-exactly-one-class".to_string());
+            }
+            match guarded(|| eg.lookup(n)) {
+                Ok(Some(a)) if a == res || eg.eq(&a, &res) => {}
+                _ => tags.push("viol:lookup-after-add-disagrees".to_string()),
+            }
+            if first {
+                // the union-find of the first dump may have been compressed by the queries since (the classes are the same,
+                // checked above); the model compares the union-find by resolution, not entry by entry
+                let after = eg.verif_snapshot(|_| "-".to_string()).trim_end().replace('\n', "~");
+                qs.push(format!("addnew {} {} {}", verif_enc_node(n), enc_app_code(&res), after.replace(' ', "`").replace('~', "^")));
+                outs.push("ok".into());
+                first = false;
+                tags.push("addnew".into());
+                if after.matches(&format!("~gen {} ", res.id.0)).count() > 0 {
+                    tags.push("addnew-with-self-symmetry".into());
+                }
+            }
+        }
         (snap, qs, outs, tags)
     });
     match r {
